@@ -14,7 +14,7 @@ open Util
 let errno_code = function
   | "EIO" -> 5 | "EINTR" -> 4 | "EAGAIN" -> 11 | "EBADF" -> 9 | "ENOSPC" -> 28 | "EPIPE" -> 32
   | "EACCES" -> 13 | "EMFILE" -> 24 | "ENOENT" -> 2 | "EISDIR" -> 21 | "EFBIG" -> 27 | "EDQUOT" -> 122
-  | "EINVAL" -> 22 | "ENOMEM" -> 12 | "ENOTDIR" -> 20 | "ENAMETOOLONG" -> 36 | "EROFS" -> 30 | "ELOOP" -> 40
+  | "EINVAL" -> 22 | "ENOMEM" -> 12 | "EWOULDBLOCK" -> 11 | "ENOTDIR" -> 20 | "ENAMETOOLONG" -> 36 | "EROFS" -> 30 | "ELOOP" -> 40
   | "0" -> 0 | _ -> 5
 
 let parse_sched (s : string) : xfer list =
